@@ -9,9 +9,12 @@
       - the validator set of the committing header (previous-commit-proof check of a proposed header),
       - the two validator sets of every proposed header held by the voting / next-round view (one
         of them becomes the committing header, its next set becomes the voting set).
-    It is inductive as long as the validator sets carried by ACCEPTED inputs have non-zero total
-    power ([step_adm]; [op_wf] is the result-independent form); the kernel itself never checks
-    that, and without it the statement is false ([message_panics_refuted] at the end of this file).  *)
+    It is inductive as long as the NEXT validator set announced by every ACCEPTED proposed header
+    and every replayed header has non-zero total power ([step_adm]; [op_wf] is the
+    result-independent form).  Nothing is required of a header's OWN validator set: the kernel
+    rejects a header whose own set differs from the set of the view it belongs to, and that set
+    has non-zero power by the invariant.  The kernel never checks the next set, and without that
+    hypothesis the statement is false ([message_panics_refuted] at the end of this file).  *)
 From Coq Require Import List NArith Arith Bool Lia String.
 From GV Require Import Base.Ints Gen.Math Gen.Kernel Model.Mirror
   Proofs.Thresholds Proofs.MirrorAuth Proofs.MirrorNoop Proofs.MirrorChain Proofs.MirrorCert.
@@ -260,56 +263,74 @@ Proof.
 Qed.
 
 (** adding a header to one of the three views: no power total changes; the proposal lists of
-    the voting / next-round views grow by [p] at most *)
+    the voting / next-round views grow by [p] at most (not at all for the committing view) *)
 Lemma put_phs_ok s vid p :
   let s1 := put_view s vid (bump (with_phs (get_view s vid) (v_phs (get_view s vid) ++ [p]))) in
-  (aok s -> aok s1) /\ (pok s -> hdr_wf (ph_hdr p) -> pok s1).
+  (aok s -> aok s1) /\
+  (pok s -> ((vid =? ViewIDVoting) = false /\ (vid =? ViewIDCommitting) = true) \/ hdr_wf (ph_hdr p) -> pok s1).
 Proof.
   unfold get_view, put_view.
   destruct (vid =? ViewIDVoting); [|destruct (vid =? ViewIDCommitting)]; cbn; split;
     try (intros H; exact H).
-  - intros Hp Hw q [Hq|Hq].
+  - intros Hp [[E _]|Hw]; [discriminate|]. intros q [Hq|Hq].
     + apply in_app_or in Hq as [Hq|[Hq|[]]]; [apply Hp; left; exact Hq|subst q; exact Hw].
     + apply Hp; right; exact Hq.
-  - intros Hp Hw. exact Hp.
-  - intros Hp Hw q [Hq|Hq].
+  - intros Hp _. exact Hp.
+  - intros Hp [[_ E]|Hw]; [discriminate|]. intros q [Hq|Hq].
     + apply Hp; left; exact Hq.
     + apply in_app_or in Hq as [Hq|[Hq|[]]]; [apply Hp; right; exact Hq|subst q; exact Hw].
 Qed.
 
+(** the header's own validator set matters only when it enters the voting / next-round view,
+    i.e. when the header is for the voting height *)
 Lemma add_ph_total s p : tinv s ->
-  okT (fun s' => hdr_wf (ph_hdr p) -> tinv s') (add_ph s p).
+  okT (fun s' => pow_ok (hd_next (ph_hdr p)) ->
+                 (pow_ok (hd_vals (ph_hdr p)) \/ hd_height (ph_hdr p) <> v_h (k_vot s)) -> tinv s')
+      (add_ph s p).
 Proof.
   intros H. unfold add_ph.
   destruct (find_view_total (kpos_of s) (hd_height (ph_hdr p)) (ph_round p)) as (vid&st&Hfv).
   rewrite Hfv. cbn [bind].
-  assert (Hsame : okT (fun s' => hdr_wf (ph_hdr p) -> tinv s') (Ok s))
-    by (apply okT_ret; intros _; exact H).
-  destruct (negb (st =? ViewFound)); [exact Hsame|].
+  set (P := fun s' => pow_ok (hd_next (ph_hdr p)) ->
+                 (pow_ok (hd_vals (ph_hdr p)) \/ hd_height (ph_hdr p) <> v_h (k_vot s)) -> tinv s').
+  assert (Hsame : okT P (Ok s)) by (apply okT_ret; intros _ _; exact H).
+  destruct (st =? ViewFound) eqn:Hst; cbn [negb]; [|exact Hsame]. apply N.eqb_eq in Hst.
   destruct (existsb _ _); [exact Hsame|].
+  assert (Hw : pow_ok (hd_next (ph_hdr p)) ->
+               (pow_ok (hd_vals (ph_hdr p)) \/ hd_height (ph_hdr p) <> v_h (k_vot s)) ->
+               ((vid =? ViewIDVoting) = false /\ (vid =? ViewIDCommitting) = true) \/ hdr_wf (ph_hdr p)).
+  { intros Hn Hv.
+    destruct (find_view_found _ _ _ _ _ Hfv Hst) as [(A&B&_)|[(A&B&_)|(A&_)]]; subst vid.
+    - right. cbn in B. destruct Hv as [Hv|Hv]; [split; assumption|contradiction].
+    - right. cbn in B. destruct Hv as [Hv|Hv]; [split; assumption|contradiction].
+    - left. split; reflexivity. }
   destruct (put_phs_ok s vid p) as [A1 P1]. cbv zeta in A1, P1.
   set (s1 := put_view s vid _) in *.
   set (s2 := ev_w (log_w (set_rounds s1 _) _) _).
   assert (A2 : aok s2) by (apply A1; exact (proj1 H)).
-  assert (P2 : hdr_wf (ph_hdr p) -> pok s2) by (intros Hw; apply P1; [exact (proj2 H)|exact Hw]).
-  destruct (negb _); [apply okT_ret; intros Hw; split; [exact A2|apply P2; exact Hw]|].
+  assert (P2 : pow_ok (hd_next (ph_hdr p)) ->
+               (pow_ok (hd_vals (ph_hdr p)) \/ hd_height (ph_hdr p) <> v_h (k_vot s)) -> pok s2)
+    by (intros Hn Hv; apply P1; [exact (proj2 H)|apply Hw; assumption]).
+  destruct (negb _); [apply okT_ret; intros Hn Hv; split; [exact A2|apply P2; assumption]|].
   pose proof (aok_backfill s2 p A2) as A3.
-  assert (P3 : hdr_wf (ph_hdr p) -> pok (backfill_commit s2 p)) by (intros Hw; apply pok_backfill, P2, Hw).
-  assert (Hs3 : okT (fun s' => hdr_wf (ph_hdr p) -> tinv s') (Ok (backfill_commit s2 p)))
-    by (apply okT_ret; intros Hw; split; [exact A3|apply P3; exact Hw]).
+  assert (P3 : pow_ok (hd_next (ph_hdr p)) ->
+               (pow_ok (hd_vals (ph_hdr p)) \/ hd_height (ph_hdr p) <> v_h (k_vot s)) -> pok (backfill_commit s2 p))
+    by (intros Hn Hv; apply pok_backfill, P2; assumption).
+  assert (Hs3 : okT P (Ok (backfill_commit s2 p)))
+    by (apply okT_ret; intros Hn Hv; split; [exact A3|apply P3; assumption]).
   destruct (vid =? ViewIDVoting); [|exact Hs3].
   destruct (pm_get _ _); [|exact Hs3].
   eapply okT_mono; [apply check_voting_total; exact A3|].
-  cbv beta. intros s' Hs' Hw. apply Hs', P3, Hw.
+  cbv beta. intros s' Hs' Hn Hv. apply Hs', P3; assumption.
 Qed.
 
 (** the validator set the previous-commit-proof check counts against *)
-Lemma ph_check_prev_vs s p status proposer prev_hash prev_vs :
-  aok s -> ph_check s p = PHC status proposer prev_hash prev_vs ->
+Lemma ph_check_prev_vs s p status proposer prev_hash prev_vs view_vs :
+  aok s -> ph_check s p = PHC status proposer prev_hash prev_vs view_vs ->
   vs_keys prev_vs = [] \/ pow_ok prev_vs.
 Proof.
   intros (_&_&C) Hc.
-  assert (G : forall v vid, set_ph_check_status s p v vid = PHC status proposer prev_hash prev_vs ->
+  assert (G : forall v vid, set_ph_check_status s p v vid = PHC status proposer prev_hash prev_vs view_vs ->
               vs_keys prev_vs = [] \/ pow_ok prev_vs).
   { intros v vid. unfold set_ph_check_status.
     destruct (existsb _ _); [intros E; inversion E; subst; left; reflexivity|].
@@ -326,15 +347,53 @@ Proof.
     try (inversion Hc; subst; left; reflexivity); eapply G; exact Hc.
 Qed.
 
-Lemma handle_ph_loop_total fuel : forall backfilled s p, tinv s ->
-  okT (fun sr => (snd sr = HandleProposedHeaderAccepted -> hdr_wf (ph_hdr p)) -> tinv (fst sr)) (handle_ph_loop fuel backfilled s p).
+(** the validator set an acceptable header must name as its own: the set of the view it belongs
+    to; for a header of the voting height that set has non-zero power *)
+Lemma ph_check_view_vs ih ivs s p status proposer prev_hash prev_vs view_vs :
+  cinv ih ivs s -> sinv s -> aok s ->
+  ph_check s p = PHC status proposer prev_hash prev_vs view_vs -> status = PHCheckAcceptable ->
+  pow_ok view_vs \/ hd_height (ph_hdr p) <> v_h (k_vot s).
 Proof.
-  assert (Hbody : forall s p proposer prev_hash prev_vs,
+  intros Hc [[Sv _] [Sn _]] (A&B&_) Hp Hs.
+  assert (Pv : pow_ok (v_vals (k_vot s))) by (unfold pow_ok; rewrite <- Sv; destruct A; lia).
+  assert (Pn : pow_ok (v_vals (k_nxt s))) by (unfold pow_ok; rewrite <- Sn; destruct B; lia).
+  assert (Hcom : v_h (k_com s) < v_h (k_vot s)).
+  { destruct Hc as (_&_&Hi3&_&_&_&_&_&_&_&Hch). unfold chain_ok in Hch.
+    destruct (k_chdr s); [destruct Hch as (X&Y&_)|destruct Hch as (X&_&_&Y)]; lia. }
+  assert (G : forall v vid, set_ph_check_status s p v vid = PHC status proposer prev_hash prev_vs view_vs ->
+              view_vs = v_vals v).
+  { intros v vid. unfold set_ph_check_status.
+    destruct (existsb _ _); [intros E; inversion E; subst; discriminate|].
+    destruct (ph_key p); [|intros E; inversion E; subst; discriminate].
+    destruct (negb _); [intros E; inversion E; subst; discriminate|].
+    destruct (_ =? k_init_h s); [intros E; inversion E; reflexivity|].
+    destruct (k_chdr s) as [ch|]; [destruct (vid =? ViewIDCommitting)|]; intros E; inversion E; reflexivity. }
+  destruct (N.eq_dec (hd_height (ph_hdr p)) (v_h (k_vot s))) as [Eh|Ne]; [left|right; exact Ne].
+  unfold ph_check in Hp. cbv zeta in Hp. rewrite Eh in Hp.
+  destruct (N.ltb_spec (v_h (k_vot s)) (v_h (k_com s))); [lia|].
+  destruct (N.eqb_spec (v_h (k_vot s)) (v_h (k_com s))); [lia|].
+  rewrite N.eqb_refl in Hp.
+  destruct (_ <? _); [inversion Hp; subst; discriminate|].
+  destruct (_ =? _); [rewrite (G _ _ Hp); exact Pv|].
+  destruct (_ =? _); [rewrite (G _ _ Hp); exact Pn|].
+  inversion Hp; subst; discriminate.
+Qed.
+
+Lemma valset_equal_pow_ok a b : valset_equal a b = true -> pow_ok b -> pow_ok a.
+Proof. intros E H. destruct (valset_equal_keys _ _ E) as [_ Ep]. unfold pow_ok. rewrite Ep. exact H. Qed.
+
+Lemma handle_ph_loop_total ih ivs fuel : forall backfilled s p, INV ih ivs s -> tinv s ->
+  okT (fun sr => (snd sr = HandleProposedHeaderAccepted -> pow_ok (hd_next (ph_hdr p))) -> tinv (fst sr))
+      (handle_ph_loop fuel backfilled s p).
+Proof.
+  assert (Hbody : forall s p proposer prev_hash prev_vs view_vs,
     tinv s -> (vs_keys prev_vs = [] \/ pow_ok prev_vs) ->
-    okT (fun sr => (snd sr = HandleProposedHeaderAccepted -> hdr_wf (ph_hdr p)) -> tinv (fst sr))
+    (pow_ok view_vs \/ hd_height (ph_hdr p) <> v_h (k_vot s)) ->
+    okT (fun sr => (snd sr = HandleProposedHeaderAccepted -> pow_ok (hd_next (ph_hdr p))) -> tinv (fst sr))
     (let hd := ph_hdr p in
       if negb (hd_ok hd) then Ok (s, HandleProposedHeaderBadBlockHash)
       else if negb (vs_ok (hd_vals hd) && vs_ok (hd_next hd)) then Ok (s, HandleProposedHeaderBadBlockHash)
+      else if negb (valset_equal (hd_vals hd) view_vs) then Ok (s, HandleProposedHeaderBadBlockHash)
       else
         match proposer with
         | None => Ok (s, HandleProposedHeaderBadSignature)
@@ -364,48 +423,56 @@ Proof.
               end
             else accept
         end)).
-  { intros s p proposer prev_hash prev_vs H Hpv. cbv zeta.
-    assert (Hsame : forall r0, okT (fun sr : kstate * N => (snd sr = HandleProposedHeaderAccepted -> hdr_wf (ph_hdr p)) -> tinv (fst sr)) (Ok (s, r0)))
-      by (intros r0; apply okT_ret; intros _; exact H).
+  { intros s p proposer prev_hash prev_vs view_vs H Hpv Hvv. cbv zeta.
+    set (P := fun sr : kstate * N => (snd sr = HandleProposedHeaderAccepted -> pow_ok (hd_next (ph_hdr p))) -> tinv (fst sr)).
+    assert (Hsame : forall r0, okT P (Ok (s, r0))) by (intros r0; apply okT_ret; intros _; exact H).
     destruct (negb (hd_ok _)); [apply Hsame|].
     destruct (negb (_ && _)); [apply Hsame|].
+    destruct (valset_equal (hd_vals (ph_hdr p)) view_vs) eqn:Hveq; cbn [negb]; [|apply Hsame].
+    assert (Hvals : pow_ok (hd_vals (ph_hdr p)) \/ hd_height (ph_hdr p) <> v_h (k_vot s)).
+    { destruct Hvv as [Hvv|Hvv]; [left; eapply valset_equal_pow_ok; eassumption|right; exact Hvv]. }
     destruct proposer as [key|]; [|apply Hsame].
     destruct (negb (verify_prop _ _ _ _)); [apply Hsame|].
     destruct (negb _ && negb _); [apply Hsame|].
     destruct (negb (bytes_eqb _ _)); [apply Hsame|].
-    assert (Hacc : okT (fun sr : kstate * N => (snd sr = HandleProposedHeaderAccepted -> hdr_wf (ph_hdr p)) -> tinv (fst sr))
-                     (bind (add_ph s p) (fun s' => Ok (s', HandleProposedHeaderAccepted)))).
+    assert (Hacc : okT P (bind (add_ph s p) (fun s' => Ok (s', HandleProposedHeaderAccepted)))).
     { eapply okT_bind; [apply add_ph_total; exact H|]. cbv beta. intros s' Hs'. apply okT_ret.
-      cbn [fst snd]. intros Hw. apply Hs', Hw. reflexivity. }
+      unfold P. cbn [fst snd]. intros Hw. apply Hs'; [apply Hw; reflexivity|exact Hvals]. }
     destruct (k_init_h s <? _); [|exact Hacc].
     destruct (vs_keys prev_vs) as [|k0 kl] eqn:Hk; [apply Hsame|].
     destruct (validate_finalized _ _ _ _ _) as [[bits|] [|]]; try apply Hsame.
     destruct Hpv as [Hpv|Hpv]; [rewrite Hpv in Hk; discriminate|].
     destruct (maj_ok _ (pow_ok_range _ Hpv)) as [maj Hm]. rewrite Hm. cbn [bind].
     destruct (_ <? maj); [apply Hsame|exact Hacc]. }
-  induction fuel as [|f IH]; intros backfilled s p H; cbn [handle_ph_loop];
-    destruct (ph_check s p) as [status proposer prev_hash prev_vs] eqn:Hc.
-  all: assert (Hsame : forall r0, okT (fun sr : kstate * N => (snd sr = HandleProposedHeaderAccepted -> hdr_wf (ph_hdr p)) -> tinv (fst sr)) (Ok (s, r0)))
+  induction fuel as [|f IH]; intros backfilled s p HI H; cbn [handle_ph_loop];
+    destruct (ph_check s p) as [status proposer prev_hash prev_vs view_vs] eqn:Hc.
+  all: assert (Hsame : forall r0, okT (fun sr : kstate * N => (snd sr = HandleProposedHeaderAccepted -> pow_ok (hd_next (ph_hdr p))) -> tinv (fst sr)) (Ok (s, r0)))
          by (intros r0; apply okT_ret; intros _; exact H).
-  all: pose proof (ph_check_prev_vs _ _ _ _ _ _ (proj1 H) Hc) as Hpv.
-  all: destruct (status =? PHCheckAlreadyHaveSignature); [apply Hsame|].
-  all: destruct (status =? PHCheckSignerUnrecognized); [apply Hsame|].
-  all: destruct (status =? PHCheckRoundTooOld); [apply Hsame|].
-  all: destruct (status =? PHCheckRoundTooFarInFuture); [apply Hsame|].
-  all: destruct (status =? PHCheckNextHeight).
+  all: pose proof (ph_check_prev_vs _ _ _ _ _ _ _ (proj1 H) Hc) as Hpv.
+  all: destruct (status =? PHCheckAlreadyHaveSignature) eqn:S1; [apply Hsame|].
+  all: destruct (status =? PHCheckSignerUnrecognized) eqn:S2; [apply Hsame|].
+  all: destruct (status =? PHCheckRoundTooOld) eqn:S3; [apply Hsame|].
+  all: destruct (status =? PHCheckRoundTooFarInFuture) eqn:S4; [apply Hsame|].
+  all: destruct (status =? PHCheckNextHeight) eqn:S5.
   - destruct backfilled; apply Hsame.
-  - apply Hbody; assumption.
+  - apply Hbody; try assumption.
+    destruct HI as (HIc&_&HIs&_).
+    eapply ph_check_view_vs; [exact HIc|exact HIs|exact (proj1 H)|exact Hc|eapply status_acceptable; eassumption].
   - destruct backfilled; [apply Hsame|].
-    eapply okT_bind; [apply handle_votes_total; exact H|].
-    cbv beta. intros sr Hsr. apply IH. exact Hsr.
-  - apply Hbody; assumption.
+    destruct (handle_votes_total KPrecommit s (vote_msg_of_pcp p) H) as ([s1 r1]&Hv&Hs1).
+    rewrite Hv. cbn [bind fst]. cbn [fst] in Hs1. apply IH; [|exact Hs1].
+    eapply INV_handle_votes; [right; reflexivity|exact HI|exact Hv].
+  - apply Hbody; try assumption.
+    destruct HI as (HIc&_&HIs&_).
+    eapply ph_check_view_vs; [exact HIc|exact HIs|exact (proj1 H)|exact Hc|eapply status_acceptable; eassumption].
 Qed.
 
-Lemma handle_ph_total s p : tinv s ->
-  okT (fun sr => (snd sr = HandleProposedHeaderAccepted -> hdr_wf (ph_hdr p)) -> tinv (fst sr)) (handle_ph s p).
+Lemma handle_ph_total ih ivs s p : INV ih ivs s -> tinv s ->
+  okT (fun sr => (snd sr = HandleProposedHeaderAccepted -> pow_ok (hd_next (ph_hdr p))) -> tinv (fst sr))
+      (handle_ph s p).
 Proof.
-  intros H. unfold handle_ph. destruct (ph_key p).
-  - apply handle_ph_loop_total; exact H.
+  intros HI H. unfold handle_ph. destruct (ph_key p).
+  - apply (handle_ph_loop_total ih ivs); assumption.
   - apply okT_ret. intros _. exact H.
 Qed.
 
@@ -440,8 +507,6 @@ Definition replay_finish (s1 : kstate) (hd : hdr) (cp : cproof) (temp : pmap) : 
 
 Definition site_replay_earlier : string := "handleReplayedHeader: TODO: handle replay for earlier round".
 Definition site_replay_fuel : string := "model: out of fuel in the replay round jump".
-Definition site_replay_refused : string :=
-  "mainLoop: TODO: handle internal error from handling replayed block (round store refused the replayed header)".
 
 Definition handle_replay' (s0 : kstate) (hd : hdr) (cp : cproof) : res (kstate * N) :=
   if negb (hd_height hd =? v_h (k_vot s0)) then Ok (s0, 1)
@@ -461,35 +526,12 @@ Definition handle_replay' (s0 : kstate) (hd : hdr) (cp : cproof) : res (kstate *
 Lemma handle_replay_eq s0 hd cp : handle_replay s0 hd cp = handle_replay' s0 hd cp.
 Proof. reflexivity. Qed.
 
-(** ** The guards of the two Panic sites a replayed header can reach *)
-
-(** site 1: the header is for the voting height but for a round the mirror has already left *)
+(** ** The guard of the one Panic site a replayed header can reach: the header is for the voting
+    height but for a round the mirror has already left *)
 Definition replay_earlier_guard (s0 : kstate) (hd : hdr) (cp : cproof) : bool :=
   (hd_height hd =? v_h (k_vot s0)) && (cp_round cp <? v_r (k_vot s0)).
 
-(** all validation checks of the replayed header and its commit proof pass (in the state [s]
-    reached by jumping to the proof's round) *)
-Definition replay_checks (s : kstate) (hd : hdr) (cp : cproof) : bool :=
-  hd_ok hd &&
-  negb (negb (hd_height hd =? k_init_h s) && negb (bytes_eqb (hd_prev hd) (chdr_hash s))) &&
-  (valset_equal (hd_vals hd) (v_vals (k_vot s)) && vs_ok (hd_vals hd)) &&
-  vs_ok (hd_next hd) &&
-  snd (replay_temp s hd cp).
-
-(** the voting view does not know the header's hash, but the round store holds a proposed header
-    with that hash in SOME round of the height: SaveRoundReplayedHeader refuses it *)
-Definition replay_store_refuses (s : kstate) (hd : hdr) : bool :=
-  negb (existsb (fun p => bytes_eqb (hd_hash (ph_hdr p)) (hd_hash hd)) (v_phs (k_vot s))) &&
-  existsb (fun x => let '(h', _, e) := x in
-                    (h' =? hd_height hd) && existsb (fun p => bytes_eqb (hd_hash (ph_hdr p)) (hd_hash hd)) (re_phs e))
-          (st_rounds s).
-
-(** site 3 *)
-Definition replay_refused_guard (s0 : kstate) (hd : hdr) (cp : cproof) : bool :=
-  (hd_height hd =? v_h (k_vot s0)) && (v_r (k_vot s0) <=? cp_round cp) &&
-  replay_checks (replay_jumped s0 cp) hd cp && replay_store_refuses (replay_jumped s0 cp) hd.
-
-(** ** The jump loop reaches the replayed round (site 2, "out of fuel", is unreachable) *)
+(** ** The jump loop reaches the replayed round (the "out of fuel" site is unreachable) *)
 Lemma jump_round ih ivs s : cinv ih ivs s -> v_r (k_vot s) + 1 < two32 ->
   v_r (k_vot (jump_voting_round s)) = v_r (k_vot s) + 1 /\
   v_h (k_vot (jump_voting_round s)) = v_h (k_vot s).
@@ -523,21 +565,17 @@ Proof.
   destruct (_ <? _); [|exact H]. apply IH. split; [apply aok_jump, H|apply pok_jump, H].
 Qed.
 
-(** ** Totality of the replay handler outside the two guards *)
-Lemma replay_insert_cases s hd r : tinv s ->
-  (replay_store_refuses s hd = true /\ replay_insert s hd r = Panic site_replay_refused) \/
-  (replay_store_refuses s hd = false /\
-   okT (fun s1 => aok s1 /\ (hdr_wf hd -> pok s1)) (replay_insert s hd r)).
+(** ** Totality of the replay handler outside the guard *)
+Lemma replay_insert_total s hd r : tinv s ->
+  okT (fun s1 => aok s1 /\ (hdr_wf hd -> pok s1)) (replay_insert s hd r).
 Proof.
-  intros [A P]. unfold replay_store_refuses, replay_insert.
-  destruct (existsb _ (v_phs (k_vot s))); cbn [negb andb].
-  - right. split; [reflexivity|]. apply okT_ret. split; [exact A|intros _; exact P].
-  - destruct (existsb _ (st_rounds s)).
-    + left. split; reflexivity.
-    + right. split; [reflexivity|]. apply okT_ret. split; [exact A|].
-      intros Hw q [Hq|Hq]; cbn in Hq.
-      * apply in_app_or in Hq as [Hq|[Hq|[]]]; [apply P; left; exact Hq|subst q; exact Hw].
-      * apply P; right; exact Hq.
+  intros [A P]. unfold replay_insert.
+  destruct (existsb _ (v_phs (k_vot s))).
+  - apply okT_ret. split; [exact A|intros _; exact P].
+  - destruct (existsb _ (st_rounds s)); apply okT_ret; (split; [exact A|]);
+      intros Hw q [Hq|Hq]; cbn in Hq;
+      try (apply in_app_or in Hq as [Hq|[Hq|[]]]; [apply P; left; exact Hq|subst q; exact Hw]);
+      apply P; right; exact Hq.
 Qed.
 
 Lemma replay_finish_total s1 hd cp temp : aok s1 ->
@@ -562,17 +600,16 @@ Qed.
 Lemma handle_replay_total ih ivs s0 hd cp :
   INV ih ivs s0 -> tinv s0 -> cp_round cp < two32 ->
   (okT (fun sr => pow_ok (hd_next hd) -> tinv (fst sr)) (handle_replay s0 hd cp) /\
-   replay_earlier_guard s0 hd cp = false /\ replay_refused_guard s0 hd cp = false) \/
-  (replay_earlier_guard s0 hd cp = true /\ handle_replay s0 hd cp = Panic site_replay_earlier) \/
-  (replay_refused_guard s0 hd cp = true /\ handle_replay s0 hd cp = Panic site_replay_refused).
+   replay_earlier_guard s0 hd cp = false) \/
+  (replay_earlier_guard s0 hd cp = true /\ handle_replay s0 hd cp = Panic site_replay_earlier).
 Proof.
   intros HI HT Hb. rewrite handle_replay_eq.
-  unfold handle_replay', replay_earlier_guard, replay_refused_guard.
+  unfold handle_replay', replay_earlier_guard.
   destruct (hd_height hd =? v_h (k_vot s0)) eqn:Hh; cbn [negb andb];
-    [|left; split; [apply okT_ret; intros _; exact HT|split; reflexivity]].
+    [|left; split; [apply okT_ret; intros _; exact HT|reflexivity]].
   apply N.eqb_eq in Hh.
-  destruct (N.ltb_spec (cp_round cp) (v_r (k_vot s0))) as [Hlt|Hge]; [right; left; split; reflexivity|].
-  rewrite (proj2 (N.leb_le _ _) Hge). cbn [andb]. cbv zeta.
+  destruct (N.ltb_spec (cp_round cp) (v_r (k_vot s0))) as [Hlt|Hge]; [right; split; reflexivity|].
+  left. split; [|reflexivity]. cbv zeta.
   destruct (replay_jumped_reaches ih ivs s0 cp (proj1 HI) Hge Hb) as [Er Eh].
   pose proof (INV_jump_until ih ivs (N.to_nat (cp_round cp - v_r (k_vot s0))) s0 (cp_round cp) HI) as HIs.
   pose proof (tinv_jump_until (N.to_nat (cp_round cp - v_r (k_vot s0))) s0 (cp_round cp) HT) as HTs.
@@ -583,43 +620,41 @@ Proof.
   rewrite Hpos. cbn [negb].
   assert (Hsame : forall r0, okT (fun sr : kstate * N => pow_ok (hd_next hd) -> tinv (fst sr)) (Ok (s, r0)))
     by (intros r0; apply okT_ret; intros _; exact HTs).
-  unfold replay_checks.
-  destruct (hd_ok hd); cbn [negb andb]; [|left; split; [apply Hsame|split; reflexivity]].
-  destruct (negb (hd_height hd =? k_init_h s) && negb (bytes_eqb (hd_prev hd) (chdr_hash s)));
-    cbn [negb andb]; [left; split; [apply Hsame|split; reflexivity]|].
+  destruct (hd_ok hd); cbn [negb]; [|apply Hsame].
+  destruct (negb (hd_height hd =? k_init_h s) && negb (bytes_eqb (hd_prev hd) (chdr_hash s))); [apply Hsame|].
   destruct (valset_equal (hd_vals hd) (v_vals (k_vot s)) && vs_ok (hd_vals hd)) eqn:Hveq;
-    cbn [negb andb]; [|left; split; [apply Hsame|split; reflexivity]].
+    cbn [negb]; [|apply Hsame].
   assert (Hvals : pow_ok (hd_vals hd)).
-  { apply andb_true_iff in Hveq as [Hveq _]. destruct (valset_equal_keys _ _ Hveq) as [_ Hpows].
+  { apply andb_true_iff in Hveq as [Hveq _]. eapply valset_equal_pow_ok; [exact Hveq|].
     destruct HIs as (_&_&[[Savail _] _]&_). destruct HTs as [([A1 _]&_) _].
-    unfold pow_ok. rewrite Hpows, <- Savail. lia. }
-  destruct (vs_ok (hd_next hd)); cbn [negb andb]; [|left; split; [apply Hsame|split; reflexivity]].
-  destruct (replay_temp s hd cp) as [temp allv]; cbn [snd].
-  destruct allv; cbn [negb andb]; [|left; split; [apply Hsame|split; reflexivity]].
-  destruct (replay_insert_cases s hd (cp_round cp) HTs) as [[G E]|[G E]].
-  - right; right. split; [exact G|rewrite E; reflexivity].
-  - left. rewrite G. split; [|split; reflexivity].
-    eapply okT_bind; [exact E|]. cbv beta. intros s1 (A1&P1).
-    eapply okT_mono; [apply replay_finish_total; exact A1|].
-    cbv beta. intros sr Hsr Hn. apply Hsr, P1. split; [exact Hvals|exact Hn].
+    unfold pow_ok. rewrite <- Savail. lia. }
+  destruct (vs_ok (hd_next hd)); cbn [negb]; [|apply Hsame].
+  destruct (replay_temp s hd cp) as [temp allv].
+  destruct allv; cbn [negb]; [|apply Hsame].
+  eapply okT_bind; [apply replay_insert_total; exact HTs|]. cbv beta. intros s1 (A1&P1).
+  eapply okT_mono; [apply replay_finish_total; exact A1|].
+  cbv beta. intros sr Hsr Hn. apply Hsr, P1. split; [exact Hvals|exact Hn].
 Qed.
 
 (** * Every step *)
 
-(** admissibility of an ACCEPTED input: the validator sets it carries have non-zero total power,
-    and a replayed commit proof's round is a uint32 (it is one in Go; the model's [N] is wider) *)
+(** admissibility, result-independent form: the NEXT validator set a proposed / replayed header
+    announces has non-zero total power (the application must not return a validator set of total
+    power 0), and a replayed commit proof's round is a uint32 (it is one in Go; the model's [N]
+    is wider).  Nothing is required of the header's OWN validator set: the kernel compares it with
+    the set of the view the header belongs to. *)
 Definition op_wf (o : op) : Prop :=
   match o with
-  | OpPH p => hdr_wf (ph_hdr p)
+  | OpPH p => pow_ok (hd_next (ph_hdr p))
   | OpReplay x cp => pow_ok (hd_next x) /\ cp_round cp < two32
   | _ => True
   end.
 
-(** what the history really needs: only a proposed header that the mirror ACCEPTED must carry
-    validator sets of non-zero power (rejected ones never enter a view) *)
+(** what the history really needs: only a proposed header that the mirror ACCEPTED must announce
+    a next validator set of non-zero power (rejected ones never enter a view) *)
 Definition step_adm (o : op) (res : N) : Prop :=
   match o with
-  | OpPH p => res = HandleProposedHeaderAccepted -> hdr_wf (ph_hdr p)
+  | OpPH p => res = HandleProposedHeaderAccepted -> pow_ok (hd_next (ph_hdr p))
   | OpReplay x cp => pow_ok (hd_next x) /\ cp_round cp < two32
   | _ => True
   end.
@@ -638,20 +673,18 @@ Lemma step_total ih ivs s o :
   match o with
   | OpReplay x cp =>
       (okT (fun sr => step_adm o (snd sr) -> tinv (fst sr)) (step s o) /\
-       replay_earlier_guard s x cp = false /\ replay_refused_guard s x cp = false) \/
-      (replay_earlier_guard s x cp = true /\ step s o = Panic site_replay_earlier) \/
-      (replay_refused_guard s x cp = true /\ step s o = Panic site_replay_refused)
+       replay_earlier_guard s x cp = false) \/
+      (replay_earlier_guard s x cp = true /\ step s o = Panic site_replay_earlier)
   | _ => okT (fun sr => step_adm o (snd sr) -> tinv (fst sr)) (step s o)
   end.
 Proof.
   intros HI HT Hb. destruct o as [p|m|m|x cp]; cbn [step step_adm].
-  - apply handle_ph_total; exact HT.
+  - apply (handle_ph_total ih ivs); assumption.
   - eapply okT_mono; [apply handle_votes_total; exact HT|]. cbv beta. intros sr H _. exact H.
   - eapply okT_mono; [apply handle_votes_total; exact HT|]. cbv beta. intros sr H _. exact H.
-  - destruct (handle_replay_total ih ivs s x cp HI HT Hb) as [(H&G1&G2)|[H|H]].
-    + left. split; [|split; assumption]. eapply okT_mono; [exact H|]. cbv beta. intros sr Hsr [Hn _]. apply Hsr, Hn.
-    + right; left; exact H.
-    + right; right; exact H.
+  - destruct (handle_replay_total ih ivs s x cp HI HT Hb) as [(H&G1)|H].
+    + left. split; [|exact G1]. eapply okT_mono; [exact H|]. cbv beta. intros sr Hsr [Hn _]. apply Hsr, Hn.
+    + right; exact H.
 Qed.
 
 Lemma step_adm_round_bounded o res : step_adm o res -> replay_round_bounded o.
@@ -665,7 +698,7 @@ Proof.
   assert (G : okT (fun sr => step_adm o (snd sr) -> tinv (fst sr)) (step s o) -> tinv s').
   { intros (x&E&Hx). rewrite Hs in E. inversion E; subst x. exact (Hx Hw). }
   destruct o as [p|m|m|x cp]; try (apply G; exact H).
-  destruct H as [(H&_)|[(_&H)|(_&H)]]; [apply G; exact H| |]; rewrite Hs in H; discriminate.
+  destruct H as [(H&_)|(_&H)]; [apply G; exact H|]; rewrite Hs in H; discriminate.
 Qed.
 
 Lemma tinv_init ih ivs : pow_ok ivs -> tinv (init_state ih ivs).
@@ -712,10 +745,8 @@ Theorem kernel_messages_never_panic ih ivs s o :
   match o with
   | OpPH _ | OpPrevote _ | OpPrecommit _ => exists s' r, step s o = Ok (s', r)
   | OpReplay x cp =>
-      ((exists s' r, step s o = Ok (s', r)) /\
-       replay_earlier_guard s x cp = false /\ replay_refused_guard s x cp = false) \/
-      (replay_earlier_guard s x cp = true /\ step s o = Panic site_replay_earlier) \/
-      (replay_refused_guard s x cp = true /\ step s o = Panic site_replay_refused)
+      ((exists s' r, step s o = Ok (s', r)) /\ replay_earlier_guard s x cp = false) \/
+      (replay_earlier_guard s x cp = true /\ step s o = Panic site_replay_earlier)
   end.
 Proof.
   intros Hi Hok Hp Hr Hb.
@@ -725,7 +756,7 @@ Proof.
   assert (G : okT (fun sr => step_adm o (snd sr) -> tinv (fst sr)) (step s o) -> exists s' r, step s o = Ok (s', r)).
   { intros ([s' r]&E&_). exists s', r. exact E. }
   destruct o as [p|m|m|x cp]; try (apply G; exact H).
-  destruct H as [(H&G1&G2)|[H|H]]; [left; split; [apply G; exact H|split; assumption]|right; left; exact H|right; right; exact H].
+  destruct H as [(H&G1)|H]; [left; split; [apply G; exact H|exact G1]|right; exact H].
 Qed.
 
 (** The same for any state satisfying the two invariants (e.g. a [reachable_b] state that happens
@@ -733,9 +764,7 @@ Qed.
 Theorem kernel_total_in_good_states ih ivs s o :
   INV ih ivs s -> tinv s -> replay_round_bounded o ->
   match o with
-  | OpReplay x cp =>
-      (exists s' r, step s o = Ok (s', r)) \/
-      step s o = Panic site_replay_earlier \/ step s o = Panic site_replay_refused
+  | OpReplay x cp => (exists s' r, step s o = Ok (s', r)) \/ step s o = Panic site_replay_earlier
   | _ => exists s' r, step s o = Ok (s', r)
   end.
 Proof.
@@ -743,29 +772,15 @@ Proof.
   assert (G : okT (fun sr => step_adm o (snd sr) -> tinv (fst sr)) (step s o) -> exists s' r, step s o = Ok (s', r)).
   { intros ([s' r]&E&_). exists s', r. exact E. }
   destruct o as [p|m|m|x cp]; try (apply G; exact H).
-  destruct H as [(H&_)|[(_&H)|(_&H)]]; [left; apply G; exact H|right; left; exact H|right; right; exact H].
+  destruct H as [(H&_)|(_&H)]; [left; apply G; exact H|right; exact H].
 Qed.
 
-(** ** The guards are exact: whenever a guard holds the handler panics at that site *)
+(** ** The guard is exact: whenever it holds the handler panics at that site *)
 Lemma replay_earlier_panics s x cp :
   replay_earlier_guard s x cp = true -> step s (OpReplay x cp) = Panic site_replay_earlier.
 Proof.
   unfold replay_earlier_guard. intros H. apply andb_true_iff in H as [H1 H2].
   cbn [step]. rewrite handle_replay_eq. unfold handle_replay'. rewrite H1, H2. reflexivity.
-Qed.
-
-Lemma replay_refused_panics ih ivs s x cp :
-  1 <= ih -> vs_ok ivs = true -> 0 < sum_pows (vs_pows ivs) -> reachable_a ih ivs s ->
-  cp_round cp < two32 ->
-  replay_refused_guard s x cp = true -> step s (OpReplay x cp) = Panic site_replay_refused.
-Proof.
-  intros Hi Hok Hp Hr Hb G.
-  destruct (kernel_messages_never_panic ih ivs s (OpReplay x cp) Hi Hok Hp Hr Hb) as [(_&_&G2)|[(G1&_)|(_&H)]].
-  - rewrite G in G2. discriminate.
-  - exfalso. unfold replay_earlier_guard, replay_refused_guard in *.
-    apply andb_true_iff in G1 as [_ G1]. apply N.ltb_lt in G1.
-    repeat (apply andb_true_iff in G as [G ?]). apply N.leb_le in H1. lia.
-  - exact H.
 Qed.
 
 (** ** The "out of fuel" site of the model is unreachable *)
@@ -784,8 +799,8 @@ Theorem replay_never_out_of_fuel ih ivs s x cp :
   cp_round cp < two32 -> step s (OpReplay x cp) <> Panic site_replay_fuel.
 Proof.
   intros Hi Hok Hp Hr Hb E.
-  destruct (kernel_messages_never_panic ih ivs s (OpReplay x cp) Hi Hok Hp Hr Hb) as [((s'&r&H)&_)|[(_&H)|(_&H)]];
-    rewrite H in E; [discriminate| |]; unfold site_replay_earlier, site_replay_refused, site_replay_fuel in E; discriminate.
+  destruct (kernel_messages_never_panic ih ivs s (OpReplay x cp) Hi Hok Hp Hr Hb) as [((s'&r&H)&_)|(_&H)];
+    rewrite H in E; [discriminate|]; unfold site_replay_earlier, site_replay_fuel in E; discriminate.
 Qed.
 
 (** The round bound on a replayed commit proof is needed in the MODEL only: its rounds are [N],
@@ -831,7 +846,7 @@ Definition op_bounded_b (o : op) : bool :=
 
 Definition op_wf_b (o : op) : bool :=
   match o with
-  | OpPH p => pow_okb (hd_vals (ph_hdr p)) && pow_okb (hd_next (ph_hdr p))
+  | OpPH p => pow_okb (hd_next (ph_hdr p))
   | OpReplay x cp => pow_okb (hd_next x) && (cp_round cp <? two32)
   | _ => true
   end.
@@ -841,9 +856,9 @@ Proof. destruct o; cbn; try (intros _; exact I); intros H; apply N.ltb_lt in H; 
 
 Lemma op_wf_b_ok o : op_wf_b o = true -> op_wf o.
 Proof.
-  destruct o as [p|m|m|x cp]; cbn; try (intros _; exact I); intros H; apply andb_true_iff in H as [H1 H2].
-  - split; apply pow_okb_ok; assumption.
-  - split; [apply pow_okb_ok; exact H1|apply N.ltb_lt; exact H2].
+  destruct o as [p|m|m|x cp]; cbn; try (intros _; exact I); intros H.
+  - apply pow_okb_ok; exact H.
+  - apply andb_true_iff in H as [H1 H2]. split; [apply pow_okb_ok; exact H1|apply N.ltb_lt; exact H2].
 Qed.
 
 Lemma run_reachable_a ih ivs ops : forall s s',
@@ -912,8 +927,9 @@ Proof.
   - cbn [cp_round]. lia.
 Qed.
 
-(** ** Site 1 of [handle_replay] is reachable: a nil precommit of the whole power moves the mirror
-    to round 1; the driver then replays a header of that height with a round-0 commit proof. *)
+(** ** The Panic site of [handle_replay] is reachable: a nil precommit of the whole power moves
+    the mirror to round 1; the driver then replays a header of that height with a round-0 commit
+    proof. *)
 Definition ops_round1 : list op := [OpPrecommit (ex_precommit 1 0 [1] [])].
 
 Example replay_earlier_round_reachable :
@@ -924,17 +940,19 @@ Proof.
   split; [apply state_after_reachable_a; vm_compute; reflexivity|]. split; vm_compute; reflexivity.
 Qed.
 
-(** ** Site 3 is reachable: the header arrives as a proposed header in round 0 (round store and
-    round-0 view get it), the mirror moves to round 1 (whose view does not have it), and the same
-    header is then replayed with a round-1 commit proof: the round store refuses it. *)
+(** ** The former third site (round store refuses the replayed header) no longer panics: the
+    header arrives as a proposed header in round 0, the mirror moves to round 1, and the same
+    header is then replayed with a round-1 commit proof: it is filed as a keyless proposed header
+    of round 1 (result 2 here: the empty commit proof carries no power). *)
 Definition ops_ph_round1 : list op := [OpPH (ex_ph ex_vs ex_vs); OpPrecommit (ex_precommit 1 0 [1] [])].
 
-Example replay_store_refused_reachable :
+Example replay_store_refused_is_ok :
   reachable_a 1 ex_vs (state_after ops_ph_round1) /\
-  replay_refused_guard (state_after ops_ph_round1) (ex_hdr ex_vs ex_vs) (mk_cproof 1 [1] []) = true /\
-  step (state_after ops_ph_round1) (OpReplay (ex_hdr ex_vs ex_vs) (mk_cproof 1 [1] [])) = Panic site_replay_refused.
+  exists s', step (state_after ops_ph_round1) (OpReplay (ex_hdr ex_vs ex_vs) (mk_cproof 1 [1] [])) = Ok (s', 2) /\
+             In (WPH (fake_ph (ex_hdr ex_vs ex_vs) 1)) (st_log s').
 Proof.
-  split; [apply state_after_reachable_a; vm_compute; reflexivity|]. split; vm_compute; reflexivity.
+  split; [apply state_after_reachable_a; vm_compute; reflexivity|].
+  eexists. split; [vm_compute; reflexivity|]. vm_compute. tauto.
 Qed.
 
 (** a replay that is accepted (the Ok branch of the theorem is inhabited as well) *)
@@ -943,7 +961,7 @@ Example replay_accepted_example :
                (OpReplay (ex_hdr ex_vs ex_vs) (mk_cproof 0 [1] [([9], [mk_ssig (keyid_encode 0) (SVote 7 KPrecommit 1 0 [9])])])) = Ok (s', 0).
 Proof. eexists. vm_compute. reflexivity. Qed.
 
-(** * Without the admissibility of the carried validator sets the statement is FALSE *)
+(** * Without the admissibility of the announced next validator sets the statement is FALSE *)
 
 (** Witness A (next validator set).  The only validator proposes, at the initial height, a header
     whose NextValidators has total power 0 and precommits it; the mirror commits it and its voting
@@ -973,26 +991,12 @@ Example message_panics_prevote :
   Panic "ByzantineMinority:34".
 Proof. vm_compute. reflexivity. Qed.
 
-(** Witness B (the header's own validator set, which [handle_ph] never compares with the view's
-    set).  The committed header carries a Validators set of total power 0; the next proposed header
-    (itself perfectly well formed, with an empty previous commit proof) makes the
-    previous-commit-proof check call ByzantineMajority(0). *)
-Definition ops_commit_zero_vals : list op :=
-  [OpPH (ex_ph ex_zero ex_vs); OpPrecommit (ex_precommit 1 0 [1] [9])].
+(** Former witness B (the header's OWN validator set of total power 0) is now rejected: the
+    kernel compares the header's set with the set of its view. *)
+Example zero_own_valset_rejected :
+  step (init_state 1 ex_vs) (OpPH (ex_ph ex_zero ex_vs)) = Ok (init_state 1 ex_vs, HandleProposedHeaderBadBlockHash).
+Proof. vm_compute. reflexivity. Qed.
 
-Definition ex_ph2 : ph :=
-  mk_ph (mk_hdr [8] true 2 [9] (mk_cproof 0 [3] []) ex_vs ex_vs) 0 (Some 7) (SProposal 7 [6] 0) [6].
-
-Theorem message_panics_refuted_vals :
-  exists ih ivs s o site,
-    1 <= ih /\ vs_ok ivs = true /\ 0 < sum_pows (vs_pows ivs) /\
-    reachable_b ih ivs s /\ op_bounded o /\ op_wf o /\
-    (exists p, o = OpPH p) /\
-    step s o = Panic site.
-Proof.
-  exists 1, ex_vs, (state_after ops_commit_zero_vals), (OpPH ex_ph2), "ByzantineMajority:13"%string.
-  split; [vm_compute; discriminate|]. split; [reflexivity|]. split; [vm_compute; reflexivity|].
-  split; [apply state_after_reachable_b; vm_compute; reflexivity|].
-  split; [vm_compute; reflexivity|]. split; [split; vm_compute; reflexivity|]. split; [eexists; reflexivity|].
-  vm_compute. reflexivity.
-Qed.
+(** ... and in general, in every admissibly reachable state the committing header and every
+    proposed header of the voting / next-round views have an own validator set of non-zero power
+    ([reachable_tinv_explicit]) although [step_adm] asks nothing of it. *)
